@@ -813,7 +813,39 @@ func (c *Ctx) queueIndexRules() {
 				}
 			}
 		}
-		// co-update groups
+		// co-update groups; what a private helper of the queue stores on behalf of this function counts as stored here
+		// (`aq.reindex()` after the ring was re-based)
+		for _, call := range ir.Calls(fn) {
+			h := call.Common().StaticCallee()
+			if h == nil || h == fn || h.Blocks == nil || recvNamed(h) != "Ackqueue" || recvNamed(fn) != "Ackqueue" || h.Object() == nil || h.Object().Exported() {
+				continue
+			}
+			for _, hb := range h.Blocks {
+				for _, hin := range hb.Instrs {
+					switch x := hin.(type) {
+					case *ssa.Store:
+						hp := ir.PathOf(x.Addr)
+						if len(hp.Owners) > 0 && hp.Owners[0] != nil && hp.Owners[0].Obj().Name() == "Ackqueue" && len(hp.Fields) > 0 {
+							if _, have := stored[hp.Fields[0]]; !have {
+								stored[hp.Fields[0]] = call
+							}
+						}
+					case *ssa.MapUpdate:
+						if isIndexMap(x.Map) {
+							if _, have := stored["emap"]; !have {
+								stored["emap"] = call
+							}
+						}
+					case *ssa.Call:
+						if bi, ok := x.Common().Value.(*ssa.Builtin); ok && bi.Name() == "delete" && isIndexMap(x.Common().Args[0]) {
+							if _, have := stored["emap"]; !have {
+								stored["emap"] = call
+							}
+						}
+					}
+				}
+			}
+		}
 		if in, ok := stored["tail"]; ok && recvNamed(fn) == "Ackqueue" {
 			_, a := stored["count"]
 			_, b := stored["emap"]
